@@ -261,7 +261,7 @@ func (w *FileWriter) generateFieldSchemaCode(field tagparser.FieldInfo, structNa
 		b.WriteString(strings.Join(values, ", "))
 		b.WriteByte(')')
 		for _, r := range field.Rules {
-			if r.Name != "enum" {
+			if r.Name != "enum" && enumRuleApplies(r.Name) {
 				if code := generateValidatorChain(r, field.Type); code != "" {
 					b.WriteString(code)
 				}
@@ -292,6 +292,9 @@ func (w *FileWriter) generateFieldSchemaCode(field tagparser.FieldInfo, structNa
 
 // generateValidatorChain returns the validator method chain for a rule.
 func generateValidatorChain(rule tagparser.TagRule, fieldType reflect.Type) string {
+	if !ruleApplies(rule.Name, fieldType) {
+		return ""
+	}
 	switch rule.Name {
 	case "required":
 		// Required is handled by the optional logic
@@ -378,6 +381,45 @@ func generateValidatorChain(rule tagparser.TagRule, fieldType reflect.Type) stri
 		return ""
 	}
 	return ""
+}
+
+// ruleApplies reports whether the schema built for a field of type t has the
+// method generateValidatorChain writes for the rule. FromStruct ignores a rule
+// that does not apply to the field's schema; the generator does the same
+// instead of writing a call that does not compile (gozod.Bool().Min(1)).
+func ruleApplies(name string, t reflect.Type) bool {
+	if t == nil {
+		return true
+	}
+	if t.Kind() == reflect.Pointer {
+		t = t.Elem()
+	}
+	numeric := false
+	switch t.Kind() { //nolint:exhaustive // the other kinds are not numeric
+	case reflect.Int, reflect.Int8, reflect.Int16, reflect.Int32, reflect.Int64,
+		reflect.Uint, reflect.Uint8, reflect.Uint16, reflect.Uint32, reflect.Uint64,
+		reflect.Float32, reflect.Float64, reflect.Complex64, reflect.Complex128:
+		numeric = true
+	}
+	switch name {
+	case "min", "max":
+		return numeric || t.Kind() == reflect.String || t.Kind() == reflect.Slice || t.Kind() == reflect.Map
+	case "gt", "gte", "lt", "lte":
+		return numeric
+	case "email", "url", "ipv4", "ipv6", "regex", "trim", "lowercase", "uppercase":
+		return t.Kind() == reflect.String
+	}
+	return true
+}
+
+// enumRuleApplies reports whether gozod.Enum(...) has the method written for
+// the rule: an enum schema only has the modifiers.
+func enumRuleApplies(name string) bool {
+	switch name {
+	case "default", "prefault", "nilable", "refine", "check":
+		return true
+	}
+	return false
 }
 
 // baseConstructor returns the GoZod constructor for a type name with circular reference detection.
